@@ -160,6 +160,23 @@ def check_normalize(case, ctx):
     N.delta = 1.0 / n
     Fo.delta = 1.0 / n
     ctx.check(_rel_eq([list(p) for p in N.evalpts], [list(p) for p in Fo.evalpts]), "normalize-evalpts", "evalpts with delta 1/%d differ between the two settings" % n)
+    if pd == 1:
+        # a part of the curve: from the parameter 0.0 of the original range (when the domain contains it) - else from the first
+        # quarter - to the domain end; the corresponding part of the normalised curve runs from (0 - a) / (b - a)
+        aF, bF = Fo.domain
+        aN, bN = N.domain
+        t0 = 0.0 if aF < 0.0 < bF else aF + 0.25 * (bF - aF)
+        ctx.label("part-starting-at-parameter-zero", t0 == 0.0)
+        Fo.evaluate(start=t0, stop=bF)
+        N.evaluate(start=aN + (t0 - aF) / (bF - aF) * (bN - aN), stop=bN)
+        ctx.check(_rel_eq([list(p) for p in N.evalpts], [list(p) for p in Fo.evalpts], 1e-8), "normalize-evaluate-part",
+                  "the part of the curve from parameter %r to the domain end differs between the two settings" % t0)
+        Fo.evaluate(start=aF, stop=t0 if t0 != aF else bF)
+        N.evaluate(start=aN, stop=(aN + (t0 - aF) / (bF - aF) * (bN - aN)) if t0 != aF else bN)
+        ctx.check(_rel_eq([list(p) for p in N.evalpts], [list(p) for p in Fo.evalpts], 1e-8), "normalize-evaluate-part",
+                  "the part of the curve from the domain start to parameter %r differs between the two settings" % t0)
+        N.evaluate()
+        Fo.evaluate()
     ctx.check(_rel_eq([list(x) for x in N.bbox], [list(x) for x in Fo.bbox]), "normalize-bbox", "bbox differs")
     op = case["op"]
     if op in ("insert", "refine", "split") and d.get("unclamped"):
@@ -238,7 +255,7 @@ def _procs_cases(draw, tier):
         n = draw(st.integers(1, 4))
         shapes = [draw(gen.spline(kinds=("surface",), dims=(3,), max_p=2, max_extra=2, different=True)) for _ in range(n)]
         return {"what": what, "shapes": shapes, "n": draw(st.sampled_from([2, 4, 6])), "procs": draw(st.sampled_from([2, 4, 8])),
-                "spacing": draw(st.sampled_from([1, 2]))}
+                "spacing": draw(st.sampled_from([1, 2])), "quad": draw(st.integers(0, 3)) == 0}
     d = draw(gen.spline(kinds=("surface", "volume"), max_p=2, max_extra=2, vol_max_p=1, vol_max_extra=2, distinct=True))
     return {"what": what, "shapes": [d], "grid": [draw(st.sampled_from([3, 5, 7, 2, 4, 6])) for _ in range(3)], "n": draw(st.integers(2, 4)),
             "vkw": draw(st.sampled_from([{}, {}, {"tol": 0.0625}, {"padding": 0.0625}, {"tol": 0.125, "padding": 0.03125}])),
@@ -253,10 +270,16 @@ def check_num_procs(case, ctx):
         def run(k):
             c = multi.SurfaceContainer(*[build.make(d) for d in case["shapes"]])
             c.delta = 1.0 / case["n"]
-            c.tessellate(num_procs=k, vertex_spacing=case.get("spacing", 1))
+            if case.get("quad"):
+                from geomdl import tessellate as _tsl
+                c.tessellator = _tsl.QuadTessellate()          # the other shipped tessellator, chosen for all members
+                c.tessellate(num_procs=k)
+            else:
+                c.tessellate(num_procs=k, vertex_spacing=case.get("spacing", 1))
             return ([[v.id, list(v.uv), list(v.data)] for v in c.vertices], [[f.id, list(f.data)] for f in c.faces])
         ctx.nt(len(case["shapes"]) >= 2 and len(set(tuple(d["size"]) for d in case["shapes"])) >= 2, ">=2-surfaces-different-sizes")
         ctx.nt(case.get("spacing", 1) > 1, "tessellation-keyword")
+        ctx.label("quad-tessellator", bool(case.get("quad")))
         base = run(1)
         got = run(procs)
         ctx.check(got[0] == base[0], "num_procs-tessellate-vertices", "vertices with num_procs=%d differ from num_procs=1 (%d vs %d vertices)" % (procs, len(got[0]), len(base[0])))
